@@ -125,8 +125,56 @@ impl Reporter {
         self.known.iter().find(|k| k.property == self.property && k.status == "known" && k.signature == sig)
     }
 
+    /// Run the same check in the `unchecked` build flavour (plain release: no debug
+    /// assertions, no overflow checks) as a child process and merge what it found.
+    pub fn merge_unchecked_flavour(&mut self) {
+        if std::env::var("VERIF_SUB").is_ok() {
+            return;
+        }
+        let exe = format!("{VERIF}/target/mc/unchecked/mc");
+        let out = std::process::Command::new(&exe)
+            .arg(&self.property)
+            .arg(self.tier.name())
+            .env("VERIF_SUB", "1")
+            .output();
+        let out = match out {
+            Ok(o) => o,
+            Err(e) => {
+                eprintln!("machinery error: cannot run {exe}: {e}");
+                std::process::exit(2);
+            }
+        };
+        let text = String::from_utf8_lossy(&out.stdout);
+        let line = text.lines().find_map(|l| l.strip_prefix("SUBRESULT "));
+        let Some(line) = line else {
+            eprintln!("machinery error: unchecked flavour produced no result (status {:?})\n{}\n{}", out.status, text, String::from_utf8_lossy(&out.stderr));
+            std::process::exit(2);
+        };
+        let v: Value = serde_json::from_str(line).expect("SUBRESULT json");
+        for x in v["violations"].as_array().unwrap() {
+            let viol = Violation {
+                signature: format!("unchecked/{}", x["signature"].as_str().unwrap()),
+                message: format!("[unchecked build] {}", x["message"].as_str().unwrap()),
+                replay: json!({"flavour": "unchecked", "case": x["replay"].clone()}),
+            };
+            let e = self.found.entry(viol.signature.clone()).or_insert((0, viol));
+            e.0 += x["count"].as_u64().unwrap_or(1);
+        }
+        self.coverage.insert("unchecked_flavour".into(), v["coverage"].clone());
+    }
+
     /// Write evidence, print KNOWN-FINDING / VIOLATION lines, return exit code.
     pub fn finish(mut self) -> i32 {
+        if std::env::var("VERIF_SUB").is_ok() {
+            let viols: Vec<Value> = self
+                .found
+                .iter()
+                .map(|(sig, (count, v))| json!({"signature": sig, "message": v.message, "replay": v.replay, "count": count}))
+                .collect();
+            self.coverage.insert("wall_s".into(), json!(self.start.elapsed().as_secs_f64()));
+            println!("SUBRESULT {}", json!({"violations": viols, "coverage": Value::Object(self.coverage.clone())}));
+            return 0;
+        }
         let mut exit = 0;
         let mut new_violations = 0;
         let mut known_hits = vec![];
